@@ -187,7 +187,27 @@ pub fn check_raw(ctx: &mut Ctx, lit: &str) {
         match (shape, r) {
             (_, Err(p)) => viol(ctx, "panic/RawNumber", text.clone(), p),
             (None, Ok(Ok(n))) => viol(ctx, "rawnumber-accepts-invalid", text.clone(), format!("holds {:?}", n.as_str())),
-            (None, Ok(Err(_))) => ctx.outcome("raw:rejected"),
+            (None, Ok(Err(_))) => {
+                ctx.outcome("raw:rejected");
+                if !quoted {
+                    // the raw-number DOM and a raw-number struct field must reject it as well
+                    let doc = format!("{{\"n\":{lit}}}");
+                    let r = guard(|| {
+                        let mut de = sonic_rs::Deserializer::from_str(&doc).use_rawnumber();
+                        let a = de.deserialize::<Value>().is_ok();
+                        let b = sonic_rs::from_str::<std::collections::BTreeMap<String, RawNumber>>(&doc).is_ok();
+                        let c = sonic_rs::from_str::<Vec<RawNumber>>(&format!("[{lit},1]")).is_ok();
+                        (a, b, c)
+                    });
+                    ctx.state();
+                    ctx.calls(3);
+                    match r {
+                        Ok((false, false, false)) => ctx.outcome("raw:rejected-in-context"),
+                        Ok(x) => viol(ctx, "rawnumber-accepts-invalid-in-context", doc.clone(), format!("raw-number DOM / map of RawNumber / Vec<RawNumber> accepted: {:?}", x)),
+                        Err(p) => viol(ctx, "panic/RawNumber-in-context", doc.clone(), p),
+                    }
+                }
+            }
             (Some(_), Ok(Err(e))) => viol(ctx, "rawnumber-rejects-valid", text.clone(), e.to_string()),
             (Some((is_int, neg)), Ok(Ok(n))) => {
                 ctx.nontrivial();
@@ -347,6 +367,25 @@ pub fn families(tier: Tier, _variant: &str) -> Vec<Family> {
             }
             ctx.nontrivial();
         }));
+    }
+    {
+        // digit run of every length followed by every short N10 tail, as raw number (bare, quoted)
+        let k = gen::N10.len() as u64;
+        let tl: u32 = if q { 4 } else { 5 };
+        let tails = gen::seq_count(k, tl);
+        let max_run: u64 = if q { 70 } else { 140 };
+        v.push(Family::new("rawnumber/digit-run+n10-tail", (max_run + 1) * tails, move |idx, ctx| {
+            let run = idx / tails;
+            let mut seq = vec![];
+            gen::nth_seq(k, tl, idx % tails, &mut seq);
+            let mut tail = vec![];
+            gen::concat(gen::N10, &seq, &mut tail);
+            let mut lit: Vec<u8> = (0..run).map(|i| b'1' + (i % 9) as u8).collect();
+            lit.extend_from_slice(&tail);
+            check_raw(ctx, std::str::from_utf8(&lit).unwrap());
+        }));
+        let edges = gen::range_edge_numbers();
+        v.push(Family::of_vec("rawnumber/range-edges", edges, |s, ctx| check_raw(ctx, s)));
     }
     v.push(Family::of_vec("f64/patterns", f64_patterns(), |b, ctx| check_f64(ctx, *b)));
     v.push(Family::new("u8,i8,u16,i16/all", 65536, |idx, ctx| {
